@@ -123,20 +123,29 @@ func c01Run(sc *C01Scenario) (v *nodeViolation, flags map[string]bool) {
 		case "blockwin":
 			gate.arm(ev.K)
 			done := make(chan struct{})
+			sn.step++
+			sn.progress++
+			blockDead, msgPanic := "", ""
 			go func() {
 				defer close(done)
 				defer func() {
 					if r := recover(); r != nil {
-						sn.blockThreadDead = fmt.Sprintf("panic in the block thread: %v", r)
+						blockDead = fmt.Sprintf("panic in the block thread: %v", r)
 					}
 				}()
-				sn.blockStep()
+				// the raw step leaves the harness's own state to the goroutine that delivers messages
+				blockDead = sn.blockStepRaw()
 			}()
 			if gate.waitHeld(done, 300*time.Millisecond) {
 				flags["block-thread-held"] = true
 				msgs := make(chan struct{})
 				go func() {
 					defer close(msgs)
+					defer func() {
+						if r := recover(); r != nil {
+							msgPanic = fmt.Sprintf("%v", r)
+						}
+					}()
 					for k := 0; k < ev.N; k++ {
 						if !sn.deliverNext(0) {
 							break
@@ -152,6 +161,12 @@ func c01Run(sc *C01Scenario) (v *nodeViolation, flags map[string]bool) {
 				<-msgs
 			}
 			<-done
+			if msgPanic != "" {
+				panic(msgPanic)
+			}
+			if blockDead != "" {
+				sn.blockThreadDead = blockDead
+			}
 			sn.drain()
 		case "best":
 			nb := tree.ByName[ev.Name]
